@@ -159,7 +159,9 @@ class PersistEngine:
             for n in ast.walk(fn.node):
                 if isinstance(n, ast.Assign) and len(n.targets) == 1 and isinstance(n.targets[0], ast.Name):
                     f = self._root_field(n.value, sn, out, K)
-                    if f and f[0] == "self" and out.get(n.targets[0].id) != f[1]:
+                    # first binding wins: a local bound to two different fields on two branches must not flip for ever
+                    # (met with refactoring C12-d1, DESIGN.md §16)
+                    if f and f[0] == "self" and n.targets[0].id not in out:
                         out[n.targets[0].id] = f[1]
                         changed = True
         return out
